@@ -84,6 +84,7 @@ def draw_request(rng, mesh, thick, fixed=None):
         req["resolution"] = int(rng.integers(4, 40))
     else:
         req["resolution"] = int(rng.choice([24, 48, 65, 128, 257])) if len(mesh["pos"]) < 600 else 32
+    req["render"] = bool(rng.random() < 0.2)
     req["layers"] = fixed.get("layers") or [["tag"], ["tag", "temp"], ["temp", "tag"], ["tag", "velocity:vec"],
                                             ["velocity:vec", "temp", "tag"], ["itag"], ["ilevel", "itag"],
                                             ["itag", "temp"]][int(rng.integers(0, 8))]
@@ -136,7 +137,8 @@ def run_map(osy, rng, res, mesh, req, thick, known_note=""):
     f_o = unit_factor(osy, pu, req["origin_unit"])
     origin_sp = np.array(req["origin"]) * box                     # in position units
     origin = osy.Vector(*[float(x * f_o) for x in origin_sp], unit=req["origin_unit"])
-    kw = {"direction": req["direction"], "origin": origin, "plot": False}
+    render = bool(req.get("render")) and not thick and all(":" not in sp for sp in req["layers"])
+    kw = {"direction": req["direction"], "origin": origin, "plot": render}
     if isinstance(req["direction"], list):
         kw["direction"] = osy.Vector(*req["direction"])
     if req["resolution"] is not None:
@@ -211,8 +213,52 @@ def run_map(osy, rng, res, mesh, req, thick, known_note=""):
         info.update(_judge_thin(res, what, plot, req, dg, strict, ncand, cand, (ny, nx), u_, v_, ndim))
     else:
         info.update(_judge_thick(osy, res, what, plot, req, dg, P2, n_, centres, half, dz_sp, xs, ys, L, pu, ndim))
-    # localiser: was a required cell dropped by the pre-selection?
+    if render:
+        _judge_render(res, what, plot, req, dx_sp, dy_sp, f_back, map_unit, xs, ys)
+        import matplotlib.pyplot as plt
+        plt.close("all")
     return info
+
+
+def _judge_render(res, what, plot, req, dx_sp, dy_sp, f_back, map_unit, xs, ys):
+    """with plot=True: the image drawn is the returned data, the axes span the window in the unit of dx and say so"""
+    res.count("rendered-figures")
+    ax = getattr(plot, "ax", None)
+    if ax is None:
+        res.violate("no-figure", f"{what}: plot=True returned no axes")
+        return
+    meshes = [c for c in ax.collections if type(c).__name__ == "QuadMesh"]
+    if len(meshes) != len(plot.layers):
+        res.violate("render-layer-count", f"{what}: {len(meshes)} images drawn for {len(plot.layers)} layers")
+        return
+    for qm, lay in zip(meshes, plot.layers):
+        drawn = np.ma.asarray(qm.get_array()).ravel()
+        data = np.ma.asarray(lay["data"]).ravel()
+        if drawn.shape != data.shape or not np.array_equal(np.ma.getmaskarray(drawn), np.ma.getmaskarray(data)) or \
+                not np.array_equal(np.ma.filled(drawn, 0.0), np.ma.filled(data, 0.0)):
+            res.violate("rendered-data-differs", f"{what}: the image drawn for layer {lay['name']!r} is not Plot.layers[...]['data']")
+            return
+    if dx_sp is not None:
+        want_x = (-0.5 * dx_sp / f_back, 0.5 * dx_sp / f_back)
+        want_y = (-0.5 * dy_sp / f_back, 0.5 * dy_sp / f_back)
+    else:
+        hx = 0.5 * (xs[1] - xs[0]) / f_back if len(xs) > 1 else None
+        want_x = None if hx is None else (xs[0] / f_back - hx, xs[-1] / f_back + hx)
+        hy = 0.5 * (ys[1] - ys[0]) / f_back if len(ys) > 1 else None
+        want_y = None if hy is None else (ys[0] / f_back - hy, ys[-1] / f_back + hy)
+    for name, want, got in (("x", want_x, ax.get_xlim()), ("y", want_y, ax.get_ylim())):
+        if want is None:
+            continue
+        span = abs(want[1] - want[0]) or 1.0
+        if abs(got[0] - want[0]) > 1e-9 * span or abs(got[1] - want[1]) > 1e-9 * span:
+            res.violate("axis-limits-wrong", f"{what}: {name} axis spans {tuple(float(g) for g in got)}, window in {map_unit} is {want}")
+            return
+    import osyris
+    ulabel = "[{:~}]".format(osyris.units(map_unit))
+    for name, lab in (("x", ax.get_xlabel()), ("y", ax.get_ylabel())):
+        if ulabel not in lab:
+            res.violate("axis-label-unit", f"{what}: {name} label {lab!r} does not carry the unit of dx {ulabel}")
+            return
 
 
 def _expected_basis(osy, req, ndim):
